@@ -209,7 +209,9 @@ def run_job(spec):
                 # the model cannot follow this path.  One concrete member of it is still run on the real code: if that run breaks
                 # the property (independent oracle) it is a reproduced violation; otherwise the path stays inconclusive.
                 viol = None
-                if r.pc and type(r.abort).__name__ == "UnsupportedSymbolicOp":
+                # (also when the code under analysis did not repeat its decisions on re-execution: it depends on state that
+                # survives a call -- a cache, a class attribute -- which is exactly what the concrete runs in one worker process exercise)
+                if r.pc and (type(r.abort).__name__ == "UnsupportedSymbolicOp" or "non-deterministic replay" in str(r.abort)):
                     try:
                         sa = z3.Solver(); sa.set("timeout", 20000); sa.add(*r.pc)
                         members = []
